@@ -390,19 +390,25 @@ func rulePageOrder(c *eng.Ctx) {
 		return
 	}
 	fwd := false
-	eng.Instrs(fn, false, func(in ssa.Instruction) {
-		if ia, ok := in.(*ssa.IndexAddr); ok {
-			if _, ok := eng.Induction(ia.Index); ok && eng.TypeName(ia.X.Type()) == "core.Array" {
-				fwd = true
+	// the /Pages arm may live in a helper of the recursion (traverseKids): look at the whole cluster
+	cluster := eng.Cluster(fn, 2)
+	for _, h := range cluster {
+		eng.Instrs(h, false, func(in ssa.Instruction) {
+			if ia, ok := in.(*ssa.IndexAddr); ok {
+				if _, ok := eng.Induction(ia.Index); ok && eng.TypeName(ia.X.Type()) == "core.Array" {
+					fwd = true
+				}
 			}
-		}
-	})
+		})
+	}
 	c.Check(fwd, R, "pages.(*PageTree).traversePageNode#kids-forward", fn.Pos(), "kids are visited in array order", "the /Kids array is not traversed with a forward +1 index")
 	// the leaf append: t.pages = append(t.pages, page) — first arg is the field itself
 	okApp := false
-	for _, ci := range eng.Calls(fn, false, func(n string, _ ssa.CallInstruction) bool { return n == "builtin:append" }) {
-		if fr, ok := eng.LoadOfField(ci.Common().Args[0]); ok && fr.Field == "pages" {
-			okApp = true
+	for _, h := range cluster {
+		for _, ci := range eng.Calls(h, false, func(n string, _ ssa.CallInstruction) bool { return n == "builtin:append" }) {
+			if fr, ok := eng.LoadOfField(ci.Common().Args[0]); ok && fr.Field == "pages" {
+				okApp = true
+			}
 		}
 	}
 	c.Check(okApp, R, "pages.(*PageTree).traversePageNode#append", fn.Pos(), "leaves are appended to the running page list", "page leaves are not appended to the end of the running list (order or count changes)")
